@@ -155,7 +155,7 @@ PROPS["C08"] = C08
 # --------------------------------------------------------------------------------------------- C06
 def _OP(desc, tier="quick"):
     return H(tier, "Oplog::open on a reference-encoded image: " + desc, "none (image concrete; CRC-framed images with symbolic bytes exhaust memory)",
-             "one configuration per harness instance", rules=[(r"crc32_bitwise", 420), (r"build_entries|open_entries", 6), (r"torn_header|torn_entry", 300)], timeout=900, unwind=5, extra=FS9000,
+             "one configuration per harness instance", rules=[(r"crc32_bitwise", 420), (r"build_entries|open_entries", 6), (r"torn_header|torn_entry", 300), (r"crash_in_make_read_only", 8200)], timeout=900, unwind=5, extra=FS9000,
              nonterm=[r"Oplog::open\.unwind"])
 
 
@@ -210,22 +210,42 @@ C07 = dict(
     outside=["cut points other than the listed ones (1,6,8,9,100,270 / 8,60,150 for headers; 3,8,9,148 / 8,40,148 for entries): each cut is one concrete image, symbolic cuts make every image byte an if-then-else over CRC-framed data (out of memory)",
              "torn writes to the bitfield/tree/data stores (rewritten by replay; orchestration in core.rs is outside every claim)"],
     harnesses={
-        "c07_torn_header_k1": _OP("header flush torn after 1 bytes into an empty slot 1: falls back to slot 0"),
+        "c07_torn_header_k1": _OP(tier="thorough", desc="header flush torn after 1 bytes into an empty slot 1: falls back to slot 0"),
         "c07_torn_header_k6": _OP("header flush torn after 6 bytes into an empty slot 1: falls back to slot 0"),
         "c07_torn_header_k8": _OP("header flush torn after 8 bytes into an empty slot 1: falls back to slot 0"),
-        "c07_torn_header_k9": _OP("header flush torn after 9 bytes into an empty slot 1: falls back to slot 0"),
+        "c07_torn_header_k9": _OP(tier="thorough", desc="header flush torn after 9 bytes into an empty slot 1: falls back to slot 0"),
         "c07_torn_header_k100": _OP("header flush torn after 100 bytes into an empty slot 1: falls back to slot 0"),
-        "c07_torn_header_k270": _OP("header flush torn after 270 bytes into an empty slot 1: falls back to slot 0"),
-        "c07_torn_header_over_old_k8": _OP("header flush torn after 8 bytes over the older header in slot 1: falls back to slot 0"),
+        "c07_torn_header_k270": _OP(tier="thorough", desc="header flush torn after 270 bytes into an empty slot 1: falls back to slot 0"),
+        "c07_torn_header_over_old_k8": _OP(tier="thorough", desc="header flush torn after 8 bytes over the older header in slot 1: falls back to slot 0"),
         "c07_torn_header_over_old_k60": _OP("header flush torn after 60 bytes over the older header in slot 1: falls back to slot 0"),
-        "c07_torn_header_over_old_k150": _OP("header flush torn after 150 bytes over the older header in slot 1: falls back to slot 0"),
+        "c07_torn_header_over_old_k150": _OP(tier="thorough", desc="header flush torn after 150 bytes over the older header in slot 1: falls back to slot 0"),
         "c07_torn_entry_end_k3": _OP("entry append torn after 3 bytes at the end of the file: ignored"),
-        "c07_torn_entry_end_k8": _OP("entry append torn after 8 bytes at the end of the file: ignored"),
+        "c07_torn_entry_end_k8": _OP(tier="thorough", desc="entry append torn after 8 bytes at the end of the file: ignored"),
         "c07_torn_entry_end_k9": _OP("entry append torn after 9 bytes at the end of the file: ignored"),
-        "c07_torn_entry_end_k148": _OP("entry append torn after 148 bytes at the end of the file: ignored"),
+        "c07_torn_entry_end_k148": _OP(tier="thorough", desc="entry append torn after 148 bytes at the end of the file: ignored"),
         "c07_torn_entry_over_stale_k8": _OP("entry append torn after 8 bytes over a stale entry: ignored"),
-        "c07_torn_entry_over_stale_k40": _OP("entry append torn after 40 bytes over a stale entry: ignored"),
+        "c07_torn_entry_over_stale_k40": _OP(tier="thorough", desc="entry append torn after 40 bytes over a stale entry: ignored"),
         "c07_torn_entry_over_stale_k148": _OP("entry append torn after 148 bytes over a stale entry: ignored"),
     },
 )
 PROPS["C07"] = C07
+
+# --------------------------------------------------------------------------------------------- C12
+C12 = dict(
+    title="Secret key hygiene: read-only cores cannot write and leave no key on disk",
+    variant="model",
+    patterns=["c12_"],
+    functions=["hypercore::oplog::Oplog::{flush,insert_header,open,clear}", "hypercore::oplog::header::<impl CompactEncoding for Header|PartialKeypair>", "encode_with_leader"],
+    oracle="reference header frame without secret; byte-window comparison with the secret key",
+    outside=["Hypercore::{make_read_only,append} themselves (NotWritable gate, second call returns false, builder argument check): they need the async Hypercore API, which does not fit in CBMC here; the data/tree/bitfield files never receive key material by construction (no code path passes the key pair to them) — argued, not checked",
+             "histories other than: both slots holding the secret, one pending entry"],
+    harnesses={
+        "c12_flush_clear_traces": H("quick", "flush(header without secret, clear_traces): both slots rewritten zero-padded, bytes == reference, no 32-byte window equals the secret, entries truncated",
+                                    "slot choice, byte offset j < 4096, window offset o <= 4064", "header fields concrete; secret key concrete ([7;32])", rules=[(r"crc32_bitwise", 420), (r"c12_flush_clear_traces", 34)], timeout=900, unwind=5, extra=FS9000),
+        "c12_crash_before": _OP("crash before the first operation of make_read_only's flush: writable core, pending clear replayed"),
+        "c12_crash_after_slot1": _OP("crash after slot 1 was rewritten: read-only core, same tree, pending entry stale"),
+        "c12_crash_after_slot0": _OP("crash after both slots were rewritten: read-only core (pending entry replayed once more, idempotent)"),
+        "c12_crash_after_truncate": _OP("all three operations applied: read-only core, no entries", tier="thorough"),
+    },
+)
+PROPS["C12"] = C12
